@@ -103,3 +103,19 @@ class Slicer:
                     if term is not None:
                         calls[b] = term
         return seen_l, sorted(calls.items())
+
+
+    def data_backward(self, seed_locals):
+        """data dependence only (no control dependence): which locals / parameters can flow into the seeds"""
+        seen, work = set(), list(seed_locals)
+        calls = {}
+        while work:
+            l = work.pop()
+            if l in seen:
+                continue
+            seen.add(l)
+            for (b, used, term) in self.defs.get(l, []):
+                work.extend(used)
+                if term is not None:
+                    calls[b] = term
+        return seen, sorted(calls.items())
